@@ -459,7 +459,7 @@ def run_case(case):
     cells.append("/".join([case["method"], spin, state, "conv" + "-".join(str(c) for c in case["conv"]),
                            "sp2" if case.get("sp2") else "diag", case["layout"], "eps%g" % case["eps"]]))
     if case["kind"] == "dispcell":
-        cells.append("dispcell/%s/%s" % (case["modes"][0], "+".join("%s-%s@%s" % d if d[1] else d[0] for d in case["dimers"])))
+        cells.append("dispcell/%s/%s" % (case["modes"][0], "+".join("%s-%s@%s" % tuple(d) if d[1] else d[0] for d in case["dimers"])))
     if case["kind"] == "batchcell":
         cells.append("batchcell/%s/%s/%s/%s" % (case["cell"], case["method"], case.get("call"),
                                                 case.get("pattern") or ("uhf" if case.get("uhf") else "rhf")
